@@ -41,9 +41,7 @@ Qed.
 (** ** the fields judged at rest *)
 Record RelQ (s : state) (ms : mstate) : Prop := {
   q_sub : forall h, mem h (m_subclosed ms) = Nat.leb 1 (sub_closes s h);
-  q_pub : forall h, mem h (m_pubclosed ms) = Nat.leb 1 (pub_closes s h);
-  q_sig : m_signalled ms = closingCh s;
-  q_early : m_early ms = early_cancel s
+  q_pub : forall h, mem h (m_pubclosed ms) = Nat.leb 1 (pub_closes s h)
 }.
 
 Lemma RelQ_init_u n u hon f5 f6 f12 f16 : RelQ (init_u n u hon f5 f6 f12 f16) minit.
@@ -52,12 +50,12 @@ Proof. constructor; simpl; intros; reflexivity. Qed.
 Lemma simq_step nh hp s l s' ms :
   step s l = Some s' -> RelQ s ms -> RelQ s' (mon_adv nh hp ms (emit s l)).
 Proof.
-  intros H [Qs Qp Qg Qe]. unfold emit. rewrite H.
+  intros H [Qs Qp]. unfold emit. rewrite H.
   destruct l; step_cases H; simpl.
   all: try match goal with |- context [match ?r with RNil => _ | RErr => _ end] => destruct r end; simpl.
   all: constructor; simpl; intros;
        first [ apply (mem_cons_cnt _ _ _ Qs) | apply (mem_cons_cnt _ _ _ Qp) | apply Qs | apply Qp | assumption
-             | rewrite Qg, Qe; reflexivity | reflexivity | congruence | solve [rew_pcs; congruence] | idtac ].
+             | reflexivity | congruence | solve [rew_pcs; congruence] | idtac ].
 Qed.
 
 Lemma simq_exec nh hp ls : forall s ms, RelQ s ms -> RelQ (exec s ls) (mon_adv nh hp ms (trace s ls)).
